@@ -70,7 +70,9 @@ def u_b_unphased(ctx):
     def body(e, shape, tag):
         n, p = shape
         gm, mat, dos = _mk_unphased(n, p)
+        fr = modeb.Frame(mat=mat)
         _stat_obligations(e, tag, gm, dos, n, p)
+        e.prove(tag + ":frame:genotypes-not-modified-by-the-statistics", fr.unchanged() and gm.mat is mat)
         return "ok"
     modeb.run_shapes(ctx, "unphased", SHAPES_U if ctx.tier == "quick" else SHAPES_U + [(4, 2), (3, 3)], body)
 
@@ -82,7 +84,9 @@ def u_b_phased(ctx):
         from pybrops.popgen.gmat.DenseGenotypeMatrix import DenseGenotypeMatrix
         n, p = shape
         gm, mat, dos = _mk_phased(n, p)
+        fr = modeb.Frame(mat=mat)
         _stat_obligations(e, tag, gm, dos, n, p)
+        e.prove(tag + ":frame:genotypes-not-modified-by-the-statistics", fr.unchanged() and gm.mat is mat)
         proj = DenseGenotypeMatrix(mat=mat.sum(0).astype("int8"), ploidy=2)
         for meth in ("tacount", "tafreq", "acount", "afreq", "afixed", "apoly", "maf", "gtcount", "gtfreq"):
             e.prove(tag + ":phased==unphased-projection:" + meth, modeb.eq(getattr(gm, meth)(), getattr(proj, meth)()))
